@@ -77,6 +77,49 @@ def job(j):
     return out
 
 
+def inline_job(j):
+    """the call expression of a  return g(...)  caller, translated by the real translate_expression in an environment
+    where the real callee was bound by the real bind_function (refinement binding of spec/Inline.tla)"""
+    use_repo()
+    import ast
+    from qlasskit import qlassf
+    from qlasskit.ast2logic import Env, translate_expression
+
+    def flat(v):
+        if isinstance(v, (list, tuple)):
+            return [b for el in v for b in flat(el)]
+        return [v]
+
+    out = []
+    for cid, pair in j["pairs"]:
+        try:
+            callee_src = render.source(pair["callee"])
+            caller_src = render.source(pair["caller"])
+            g = qlassf(callee_src, to_compile=False)
+            caller = qlassf(caller_src, defs=[g], to_compile=False)
+            call = ast.parse(caller_src).body[0].body[-1].value
+            if not (isinstance(call, ast.Call) and getattr(call.func, "id", None) == g.name):
+                continue
+            if any(isinstance(a, ast.Call) for a in call.args):
+                continue
+            env = Env()
+            for a in caller.args:
+                env.bind(a)
+            env.bind_function(g.to_logicfun())
+            rec = {"id": cid, "src": callee_src + "\n" + caller_src, "name": g.name, "formals": [list(a.bitvec) for a in g.args],
+                   "cexprs": ser.ser_exprs(g.expressions), "nret": len(g.returns.bitvec),
+                   "inputs": [b for a in caller.args for b in a.bitvec], "exc": "", "result": [], "actuals": []}
+            rec["actuals"] = [[ser.ser_expr(b) for b in flat(translate_expression(a, env)[1])] for a in call.args]
+            try:
+                rec["result"] = [ser.ser_expr(b) for b in flat(translate_expression(call, env)[1])]
+            except Exception as e:
+                rec["exc"] = f"{type(e).__name__}: {str(e)[:100]}"
+            out.append(rec)
+        except Exception:
+            continue
+    return out
+
+
 def gen_pairs(sc):
     pairs, st = [], {"generated": 0, "distinct": 0}
     for fam in FAMILIES:
@@ -105,12 +148,23 @@ def run(pid):
                 rng.shuffle(ps)
                 pairs += [(fam, p) for p in ps[:90]]
         results = run_jobs(job, [{"family": fam, "pair": p} for fam, p in pairs])
+        # refinement binding of the call mechanism (spec/Inline.tla); drift is evidence only
+        ipairs = [(k, p) for k, (fam, p) in enumerate(pairs) if p["route"] == "defs"]
+        irecs = [x for r in run_jobs(inline_job, [{"pairs": ipairs[k::32]} for k in range(32)]) for x in r]
+        iverd, _ = tlc.run_cases("Trace_Inline", irecs, sc, timeout=1800, heap="4g") if irecs else ({}, {})
+        inline = {"spec": "Inline.tla via Trace_Inline", "calls_replayed": len(irecs), "verdicts": {}, "drift_samples": []}
+        for x in irecs:
+            v = iverd[x["id"]]
+            inline["verdicts"][v] = inline["verdicts"].get(v, 0) + 1
+            if v.startswith("drift") and len(inline["drift_samples"]) < 5:
+                inline["drift_samples"].append({"src": x["src"], "verdict": v})
+        vlog("inline", inline["verdicts"])
         rej = {}
         for r in results:
             if r["status"] == "rejected":
                 k = r["exc"].split(":")[0]
                 rej[k] = rej.get(k, 0) + 1
         cov, vst = judge("C07", rep, results, sc, extra_cov={"pairs": len(pairs), "generator_states": gst, "rejections": rej,
-                                                             "families": FAMILIES})
+                                                             "families": FAMILIES, "refinement": inline})
     vac = None if vst.get("ok", 0) >= 100 else f"only {vst.get('ok', 0)} ok"
     return rep.finish(cov, T0.s(), assumptions=["spec/PySem.tla applies the callee's definition to argument values"], vacuity=vac)
